@@ -235,7 +235,7 @@ func rulePAN9(p *Program) *RuleResult {
 			}
 		}
 	}
-	r.floor("value_accessor_sites", 10)
+	r.floor("value_accessor_sites", 8)
 	return r
 }
 
@@ -297,7 +297,7 @@ func rulePAN3b(p *Program) *RuleResult {
 			}
 		}
 	}
-	r.floor("list_index_sites", 4)
+	r.floor("list_index_sites", 2)
 	return r
 }
 
@@ -456,7 +456,7 @@ func rulePAN10(p *Program) *RuleResult {
 			}
 		}
 	}
-	r.floor("value_sink_sites", 6)
+	r.floor("value_sink_sites", 4)
 	return r
 }
 
